@@ -1,0 +1,26 @@
+//go:build verif
+
+// Contracts for package ammo (what the HTTP provider hands to a gun), checked by /verif/govc. Comment-only: no code.
+package ammo
+
+// The request as built by the provider and a new sample carrying the entry's tag and id.
+//@ func (g GunAmmo) Request
+//@ props C07 C10
+//@ ensures [the-request-and-a-sample-of-this-entry] result0 == g.req && result1 == result_of(netsample.Acquire, 0)
+//@ at call netsample.Acquire assert [tag-of-the-entry] arg(tag) == g.tag
+//@ at call sample.SetID assert [id-of-the-entry] arg(id) == g.id
+
+//@ func (g GunAmmo) ID
+//@ props C10
+//@ modifies nothing
+//@ ensures result == g.id
+
+//@ func (g GunAmmo) IsInvalid
+//@ props C10
+//@ modifies nothing
+//@ ensures result == g.isInvalid
+
+//@ func NewGunAmmo
+//@ props C07 C10
+//@ modifies nothing
+//@ ensures [a-valid-ammo-of-that-request] result.req == req && result.id == id && result.tag == tag && !result.isInvalid
